@@ -34,6 +34,8 @@ pub struct CrashCase {
     /// always before the rename): it leaves a temporary file behind, which the interrupted write
     /// under test finds
     pub pre: Option<String>,
+    /// the cache file of the year is a symbolic link to a file kept elsewhere (a synced folder)
+    pub link: bool,
 }
 
 fn remote_at(cal: &Calendar, today: i32, year: i32) -> BTreeMap<i32, Vec<(i32, Decimal)>> {
@@ -73,7 +75,8 @@ pub fn gen_case(r: &mut Rng, idx: u64, thorough: bool) -> CrashCase {
     } else {
         None
     };
-    CrashCase { year, old_today, today, later_today, cal, every, pre }
+    let link = old_today.is_some() && r.chance(35);
+    CrashCase { year, old_today, today, later_today, cal, every, pre, link }
 }
 
 fn remote_arg(m: &BTreeMap<i32, Vec<(i32, Decimal)>>) -> String {
@@ -165,31 +168,48 @@ fn file_tok(o: &Option<Vec<u8>>) -> String {
 
 struct Snapshot {
     files: Vec<(String, Vec<u8>)>,
+    /// name -> link target, for entries that are symbolic links (their content is in `files` too)
+    links: Vec<(String, PathBuf)>,
 }
 
 fn snapshot(dir: &Path) -> Snapshot {
     let mut files = Vec::new();
+    let mut links = Vec::new();
     if let Ok(rd) = std::fs::read_dir(dir) {
         for e in rd.flatten() {
             let name = e.file_name().to_string_lossy().to_string();
+            if let Ok(t) = std::fs::read_link(e.path()) {
+                links.push((name.clone(), t));
+            }
             if let Ok(b) = std::fs::read(e.path()) {
                 files.push((name, b));
             }
         }
     }
     files.sort();
-    Snapshot { files }
+    links.sort();
+    Snapshot { files, links }
 }
 
 fn restore(dir: &Path, snap: &Snapshot) {
     let cur = snapshot(dir);
-    if cur.files == snap.files {
+    if cur.files == snap.files && cur.links == snap.links {
         return;
     }
     let _ = std::fs::remove_dir_all(dir);
     std::fs::create_dir_all(dir).unwrap();
     for (n, b) in &snap.files {
-        std::fs::write(dir.join(n), b).unwrap();
+        match snap.links.iter().find(|(ln, _)| ln == n) {
+            Some((_, target)) => {
+                if let Some(parent) = target.parent() {
+                    let _ = std::fs::create_dir_all(parent);
+                }
+                std::fs::write(target, b).unwrap();
+                #[cfg(unix)]
+                std::os::unix::fs::symlink(target, dir.join(n)).unwrap();
+            }
+            None => std::fs::write(dir.join(n), b).unwrap(),
+        }
     }
 }
 
@@ -200,14 +220,15 @@ pub fn run_case(id: &str, c: &CrashCase, out: &mut String) {
     let rem_new = remote_at(&c.cal, c.today, c.year);
     let rem_later = remote_at(&c.cal, c.later_today, c.year);
     out.push_str(&format!(
-        "case {} fxcrash year={} today={} later={} every={} old={} pre={}\n",
+        "case {} fxcrash year={} today={} later={} every={} old={} pre={} link={}\n",
         id,
         c.year,
         c.today,
         c.later_today,
         c.every,
         c.old_today.map(|t| t.to_string()).unwrap_or("-".to_string()),
-        c.pre.clone().unwrap_or("-".to_string())
+        c.pre.clone().unwrap_or("-".to_string()),
+        c.link as u8
     ));
     for (y, v) in &rem_new {
         out.push_str(&rem_line(*y, v));
@@ -225,6 +246,16 @@ pub fn run_case(id: &str, c: &CrashCase, out: &mut String) {
             out.push_str(&rem_line(*y, v).replacen("in rem", "in old", 1));
         }
         let _ = run_loader(&dir, t0, &rem_old, t0 - 1);
+        if c.link {
+            // the old cache file lives in another folder; the cache directory holds a link to it
+            let store = scratch_dir("fxcrashstore");
+            let _ = std::fs::create_dir_all(&store);
+            let target = store.join(format!("rates-{}.csv", c.year));
+            if std::fs::rename(&live, &target).is_ok() {
+                #[cfg(unix)]
+                let _ = std::os::unix::fs::symlink(&target, &live);
+            }
+        }
     }
     // an earlier interrupted write of the same data (leaves its temporary file, never the new file)
     if let Some(p) = &c.pre {
@@ -387,5 +418,6 @@ pub fn parse_case(lines: &[String]) -> Option<CrashCase> {
         cal,
         every: kv("every").and_then(|v| v.parse().ok()).unwrap_or(1),
         pre: kv("pre").and_then(|v| if v == "-" { None } else { Some(v) }),
+        link: kv("link").map(|v| v == "1").unwrap_or(false),
     })
 }
